@@ -230,3 +230,195 @@ Proof.
       * rewrite x_close_if_none. eexists. split; reflexivity.
     + rewrite x_close_if_none. eexists. split; reflexivity.
 Qed.
+
+Lemma put_file_put_file : forall s pd t f g, put_file (put_file s pd t f) pd t g = put_file s pd t g.
+Proof.
+  intros. unfold put_file, set_files, files_of. simpl. rewrite get_put_eq, !put_put. reflexivity.
+Qed.
+
+Lemma x_remove_tract_none : forall cs t,
+    vs (fst (x_remove_tract cs t)) = fst (remove_tract (vs cs) t) /\
+    snd (x_remove_tract cs t) = snd (remove_tract (vs cs) t).
+Proof. intros. unfold x_remove_tract. now destruct (remove_tract (vs cs) t). Qed.
+
+Lemma x_pick_none : forall s orc, x_pick s None orc = pick s orc.
+Proof. intros. unfold x_pick. now destruct (pick s orc). Qed.
+
+Lemma x_do_create_none : forall cs t ver d off orc,
+    exists cs', x_do_create cs None t ver d off orc = (cs', None, snd (do_create (vs cs) t ver d off orc)) /\
+                vs cs' = fst (do_create (vs cs) t ver d off orc).
+Proof.
+  intros. unfold x_do_create, do_create. rewrite x_pick_none.
+  destruct (lookup (vs cs) t) as [[? ?]|]; [eexists; split; reflexivity|].
+  destruct (pick (vs cs) orc) as [[slot pd]|e]; [|eexists; split; reflexivity].
+  unfold x_open, copy. cbn [tick].
+  destruct (get t (files_of (vs cs) pd)) as [fl|] eqn:C.
+  - eexists. split; reflexivity.
+  - cbv beta iota. change (E_OK =? E_OK)%Z with true. cbv beta iota.
+    unfold x_setxattr. cbn [tick vs with_vs]. rewrite copy_put_file, !N.eqb_refl. cbn [andb].
+    cbv beta iota. change (E_OK =? E_OK)%Z with true. cbv beta iota.
+    unfold x_write. cbn [tick vs with_vs]. rewrite copy_put_file, !N.eqb_refl. cbn [andb].
+    cbv beta iota.
+    eexists. split; [reflexivity|]. cbn. rewrite !put_file_put_file. reflexivity.
+Qed.
+
+Lemma x_create_none : forall cs t d off orc,
+    exists cs', x_create cs None t d off orc = (cs', None, snd (create (vs cs) t d off orc)) /\
+                vs cs' = fst (create (vs cs) t d off orc).
+Proof.
+  intros. unfold x_create, create.
+  destruct (x_do_create_none cs t (initial_version t) d off orc) as (cs1 & E & V). rewrite E.
+  destruct (do_create (vs cs) t (initial_version t) d off orc) as [s1 e]. simpl in *.
+  destruct (e =? E_AlreadyExists)%Z; [|eexists; split; [reflexivity|exact V]].
+  destruct (x_do_write_none cs1 t (initial_version t) d off) as (cs2 & E2 & V2). rewrite E2.
+  rewrite V in *. exists cs2. split; [reflexivity|exact V2].
+Qed.
+
+Lemma x_pull_pre_none : forall cs t v,
+    exists cs', x_pull_pre cs None t v = (cs', None, snd (pull_pre (vs cs) t v)) /\
+                vs cs' = fst (pull_pre (vs cs) t v).
+Proof.
+  intros. unfold x_pull_pre, pull_pre, open_existing.
+  destruct (lookup (vs cs) t) as [[slot st]|]; [|eexists; split; reflexivity].
+  destruct (disk_of (vs cs) slot) as [pd|].
+  2:{ assert (X : (E_PANIC =? E_PANIC)%Z = true) by reflexivity. rewrite X. eexists. split; reflexivity. }
+  unfold x_open. cbn [tick].
+  assert (RM : forall c0, vs c0 = vs cs ->
+               exists cs', (let '(cs3, e3) := x_remove_tract c0 t in
+                            (cs3, @None nat, if (e3 =? E_OK)%Z then None else Some e3)) =
+                           (cs', None, snd (let '(s', e') := remove_tract (vs cs) t in
+                                            (s', if (e' =? E_OK)%Z then None else Some e'))) /\
+                           vs cs' = fst (let '(s', e') := remove_tract (vs cs) t in
+                                         (s', if (e' =? E_OK)%Z then None else Some e'))).
+  { intros c0 Hc. destruct (x_remove_tract_none c0 t) as [A B]. rewrite Hc in A, B.
+    destruct (x_remove_tract c0 t) as [c3 e3]. destruct (remove_tract (vs cs) t) as [s' e']. simpl in *.
+    subst. eexists. split; reflexivity. }
+  unfold getver, copy.
+  destruct (get t (files_of (vs cs) pd)) as [fl|] eqn:C.
+  - change (E_OK =? E_OK)%Z with true. cbv beta iota. rewrite C.
+    destruct (f_ver fl) as [cur|].
+    + rewrite x_close_if_none. change (E_OK =? E_OK)%Z with true. cbn [andb].
+      destruct (v <? cur)%Z; [eexists; split; reflexivity|]. apply RM. reflexivity.
+    + rewrite x_close_if_none. apply RM. reflexivity.
+  - change (E_NoSuchTract =? E_OK)%Z with false. change (E_NoSuchTract =? E_PANIC)%Z with false.
+    cbv beta iota. cbn [x_close_if]. apply RM. reflexivity.
+Qed.
+
+Lemma x_pull_once_none : forall cs t r v orc,
+    exists cs', x_pull_once cs None t r v orc = (cs', None, snd (pull_once (vs cs) t r v orc)) /\
+                vs cs' = fst (pull_once (vs cs) t r v orc).
+Proof.
+  intros cs t [re data] v orc. unfold x_pull_once, pull_once.
+  destruct (x_pull_pre_none cs t v) as (cs1 & E & V). rewrite E.
+  destruct (pull_pre (vs cs) t v) as [s1 [e|]]; simpl in *; [exists cs1; auto|].
+  destruct (negb (re =? E_OK)%Z && negb (re =? E_EOF)%Z); [exists cs1; auto|].
+  destruct (x_do_create_none cs1 t v data 0 orc) as (cs2 & E2 & V2). rewrite E2. rewrite V in *.
+  destruct (do_create s1 t v data 0 orc) as [s2 ce]. simpl in *.
+  destruct (ce =? E_OK)%Z; [exists cs2; auto|].
+  destruct (x_remove_tract_none cs2 t) as [A _]. rewrite V2 in A.
+  eexists. split; [reflexivity|exact A].
+Qed.
+
+Lemma x_pull_all_none : forall srcs cs t v orc last,
+    exists cs', x_pull_all cs None t srcs v orc last = (cs', None, snd (pull_all (vs cs) t srcs v orc last)) /\
+                vs cs' = fst (pull_all (vs cs) t srcs v orc last).
+Proof.
+  induction srcs as [|r rest IH]; intros; simpl; [exists cs; auto|].
+  destruct (x_pull_once_none cs t r v orc) as (cs1 & E & V). rewrite E.
+  destruct (pull_once (vs cs) t r v orc) as [s1 e]. simpl in *.
+  destruct (e =? E_OK)%Z; [exists cs1; auto|].
+  destruct (IH cs1 t v orc e) as (cs2 & E2 & V2). rewrite V in *. exists cs2. auto.
+Qed.
+
+(* open + getVersion + close without a fault: the sequential model's open_version *)
+Lemma x_probe_none : forall cs t,
+    exists cs', x_probe cs None t =
+                (cs', None, match open_version (vs cs) t with V_ok _ _ c => inl c | V_err e => inr e end) /\
+                vs cs' = vs cs.
+Proof.
+  intros. unfold x_probe, open_version. rewrite x_open_existing_none.
+  destruct (open_existing (vs cs) t) as [pd fl|e] eqn:O; [|eexists; split; reflexivity].
+  rewrite (getver_open cs t pd fl O). rewrite x_close_if_none.
+  destruct (f_ver fl) as [cur|].
+  - change (E_OK =? E_OK)%Z with true. eexists. split; reflexivity.
+  - assert (X : (E_nover (vs cs) =? E_OK)%Z = false) by (apply Z.eqb_neq; apply fail_nover). rewrite X.
+    eexists. split; reflexivity.
+Qed.
+
+Lemma x_maybe_gc_none : forall cs tv,
+    exists cs', x_maybe_gc (@pair cstore fault cs None) tv = (@pair cstore fault cs' None) /\ vs cs' = maybe_gc (vs cs) tv.
+Proof.
+  intros cs tv. unfold x_maybe_gc, maybe_gc.
+  destruct (x_probe_none cs (fst tv)) as (cs1 & E & V). rewrite E.
+  destruct (open_version (vs cs) (fst tv)) as [pd fl c|e]; [|exists cs1; auto].
+  destruct (snd tv <? c)%Z; [exists cs1; auto|].
+  destruct (x_remove_tract_none cs1 (fst tv)) as [A _]. rewrite V in A. eexists. split; [reflexivity|exact A].
+Qed.
+
+Lemma x_gc_none : forall cs old gone,
+    exists cs', x_gc cs None old gone = (cs', None) /\ vs cs' = gc_tracts (vs cs) old gone.
+Proof.
+  intros. unfold x_gc, gc_tracts.
+  assert (H1 : forall l c, exists c', fold_left x_maybe_gc l (@pair cstore fault c None) = (@pair cstore fault c' None) /\
+                                      vs c' = fold_left maybe_gc l (vs c)).
+  { induction l as [|x l IH]; intros c; cbn [fold_left]; [exists c; auto|].
+    destruct (x_maybe_gc_none c x) as (c1 & E & V). rewrite E.
+    destruct (IH c1) as (c2 & E2 & V2). rewrite V in V2. exists c2. auto. }
+  destruct (H1 old cs) as (c1 & E & V). rewrite E, <- V.
+  assert (H2 : forall l c, vs (fold_left (fun c0 t => fst (x_remove_tract c0 t)) l c) =
+                           fold_left (fun s t => fst (remove_tract s t)) l (vs c)).
+  { induction l as [|x l IH]; intros c; cbn [fold_left]; [reflexivity|].
+    rewrite IH. now destruct (x_remove_tract_none c x) as [-> _]. }
+  eexists. split; [reflexivity|apply H2].
+Qed.
+
+Lemma x_check_none : forall ts cs,
+    exists cs', x_check cs None ts = (cs', None, check (vs cs) ts) /\ vs cs' = vs cs.
+Proof.
+  induction ts as [|tv rest IH]; intros cs; simpl; [exists cs; auto|].
+  destruct (x_probe_none cs (fst tv)) as (cs1 & E & V). rewrite E.
+  destruct (IH cs1) as (cs2 & E2 & V2). rewrite E2. rewrite V in *.
+  exists cs2. split; [|exact V2].
+  destruct (open_version (vs cs) (fst tv)) as [pd fl c|e]; [destruct (c <? snd tv)%Z|]; reflexivity.
+Qed.
+
+Lemma add_disk_fail_same_x : forall s pd, snd (add_disk s pd) <> E_OK -> s = fst (add_disk s pd).
+Proof.
+  intros s pd H. unfold add_disk in *. destruct (slot_of s pd); [reflexivity|].
+  destruct (free_slot s); [|reflexivity]. destruct (dangling s _); [reflexivity|]. simpl in H. congruence.
+Qed.
+
+Lemma x_add_disk_vs : forall cs pd,
+    vs (fst (x_add_disk cs pd)) = fst (add_disk (vs cs) pd) /\ snd (x_add_disk cs pd) = snd (add_disk (vs cs) pd).
+Proof.
+  intros. unfold x_add_disk. pose proof (add_disk_fail_same_x (vs cs) pd) as F.
+  destruct (add_disk (vs cs) pd) as [s' e]. simpl in *.
+  destruct (e =? E_OK)%Z eqn:X; simpl; [auto|].
+  apply Z.eqb_neq in X. split; [now apply F|reflexivity].
+Qed.
+
+(* an operation issued with no fault: result and visible state are those of Store/Model.v's [step] *)
+Theorem x_step_nofault : forall cs o,
+    vs (fst (x_step cs None o)) = fst (step (vs cs) o) /\ snd (x_step cs None o) = snd (step (vs cs) o).
+Proof.
+  intros cs o. destruct o; simpl.
+  - destruct (x_create_none cs t data off orc) as (c & E & V). rewrite E.
+    destruct (create (vs cs) t data off orc). simpl in *. auto.
+  - destruct (x_do_write_none cs t v data off) as (c & E & V). rewrite E.
+    destruct (do_write (vs cs) t v data off). simpl in *. auto.
+  - destruct (x_read_none cs t v len off) as (c & E & V). rewrite E.
+    destruct (read (vs cs) t v len off). simpl. auto.
+  - destruct (x_stat_none cs t v) as (c & E & V). rewrite E.
+    destruct (stat (vs cs) t v) as [[? ?] ?]. simpl. auto.
+  - destruct (x_set_version_none cs t v cond) as (c & E & V). rewrite E.
+    destruct (set_version (vs cs) t v cond) as [? [? ?]]. simpl in *. auto.
+  - unfold pull_tract. destruct (x_pull_all_none srcs cs t v orc E_OK) as (c & E & V). rewrite E.
+    destruct (pull_all (vs cs) t srcs v orc E_OK). simpl in *. auto.
+  - destruct (x_gc_none cs old gone) as (c & E & V). rewrite E. simpl. auto.
+  - destruct (x_check_none ts cs) as (c & E & V). rewrite E. simpl. auto.
+  - auto.
+  - destruct (x_add_disk_vs cs pd) as [A B]. destruct (x_add_disk cs pd). destruct (add_disk (vs cs) pd).
+    simpl in *. subst. auto.
+  - destruct (remove_disk (vs cs) pd). auto.
+  - destruct (set_alloc (vs cs) pd stop). auto.
+Qed.
